@@ -101,6 +101,31 @@ func (m *Machine) crossUnsat(extra *Term) bool {
 		x.Assert(p)
 	}
 	x.Assert(extra)
+	// case conversion is an uninterpreted symbol for this solver: give it the axioms
+	apps := map[string]*Term{}
+	var walk func(t *Term)
+	walk = func(t *Term) {
+		if t.Op == "uf" && len(t.Args) == 1 && (t.S == "u_lower" || t.S == "u_upper") {
+			apps[t.String()] = t
+		}
+		for _, a := range t.Args {
+			walk(a)
+		}
+	}
+	for _, p := range m.pc {
+		walk(p)
+	}
+	walk(extra)
+	for _, u := range apps {
+		s := u.Args[0]
+		x.Assert(mkEq(mkLen(u), mkLen(s)))
+		x.Assert(mkEq(mkUF(u.S, SStr, u), u))
+		cls := `(re.++ re.all (re.range "A" "Z") re.all)`
+		if u.S == "u_upper" {
+			cls = `(re.++ re.all (re.range "a" "z") re.all)`
+		}
+		x.Assert(mkImplies(mkNot(mkInRe(s, cls)), mkEq(u, s)))
+	}
 	r := x.Check()
 	m.ex.noteCross(r)
 	return r != Sat
